@@ -38,7 +38,7 @@ ASSUMPTIONS = [
 ]
 
 TB_NAME = re.compile(r"^traceback(-\d+)*$")
-TRACEBACK_KINDS = {"fail", "error", "failsub", "mismatch", "kbd", "exit", "kbdsub", "exitsub", "basedirect", "xfail",
+TRACEBACK_KINDS = {"fail", "error", "failsub", "mismatch", "kbd", "exit", "kbdsub", "exitsub", "basedirect", "xfail", "xfail_err",
                    "eqexc", "sameobj"}
 
 
@@ -163,7 +163,8 @@ def _one_run(ctx, case, shared, second=False):
     # ---- (d) skip reason ------------------------------------------------------------------------
     if out.name == "addSkip":
         reason = delivered.get("reason")
-        toks = [t for k, t, _ in env.raised if k in ("skip", "skipsub", "xfail", "uxs")]
+        toks = [t for k, t, _ in env.raised if k in ("skip", "skipsub", "xfail", "uxs", "skip2")]
+        toks += ["" for k, t, _ in env.raised if k == "skip_empty"]
         toks += [t for k, t, _ in env.raised if k.startswith("custom:")]
         if programs.is_decor_skip(program):
             toks.append(program.get("decor_reason", "DECOR-skip"))
